@@ -3,7 +3,7 @@
    commits nothing.  No honesty assumption: timestamps and votes are arbitrary. *)
 From stdpp Require Import gmap.
 From DS Require Import Base Decimal StreamValue Aggregators Config Outcome PluginFactory OutcomeProofs StepTheorems HistoryProofs NvHistory.
-From DS Require FactoryProofs.
+From DS Require FactoryProofs BytesHistory ReportsNoPanic OutcomeRoundTrip PluginOutcomeBytes NvWire.
 Open Scope Z_scope.
 
 (* consecutive reports rj (from event ej) and rk (from event ek) of channel c, no report of c in between,
@@ -59,6 +59,42 @@ Theorem C03_factory_configs_are_accepted : forall f onchain offchain cf,
   plugin_factory_cfg f onchain offchain = Ok cf -> cfg_accepted cf.
 Proof. exact FactoryProofs.factory_configs_are_accepted. Qed.
 Print Assumptions C03_factory_configs_are_accepted.
+
+(* ---- on the wire ----
+   BytesHistory: a byte-level event is one successful call of Plugin.Outcome — observation bytes and previous-outcome
+   bytes in, outcome bytes out (PluginOutcomeBytes.plugin_outcome_bytes, compared byte for byte with the implementation
+   on every small round of the `history` projection); events are linked by "the bytes returned are the bytes handed to the
+   next round".  Decoding everything maps such a history to a linked history of struct-level events, so the chain
+   theorem (and with it every theorem stated over valid_event / linked) holds of the plugin as it exists on the wire. *)
+Theorem C03_wire_history_abstracts : forall h check cf es,
+  BytesHistory.check_typed check -> Forall (BytesHistory.bvalid h check cf) es -> BytesHistory.blinked es ->
+  Forall (valid_event h cf) (map (BytesHistory.abs_event check cf) es) /\ linked (map (BytesHistory.abs_event check cf) es).
+Proof. exact BytesHistory.abs_history. Qed.
+Print Assumptions C03_wire_history_abstracts.
+
+Theorem C03_chain_on_the_wire : forall h check cf bj bmid bk c rj rk,
+  cfg_accepted cf -> BytesHistory.check_typed check ->
+  Forall (BytesHistory.bvalid h check cf) (bj :: bmid ++ [bk]) -> BytesHistory.blinked (bj :: bmid ++ [bk]) ->
+  report_of cf (BytesHistory.bv_seq bj) (BytesHistory.dec_or_initial cf (BytesHistory.bv_next bj)) c rj ->
+  report_of cf (BytesHistory.bv_seq bk) (BytesHistory.dec_or_initial cf (BytesHistory.bv_next bk)) c rk ->
+  (forall e, In e bmid -> reportable cf (BytesHistory.dec_or_initial cf (BytesHistory.bv_next e)) c = false) ->
+  (forall e, In e (bmid ++ [bk]) -> ~ promotion (BytesHistory.abs_event check cf e) /\ ~ voted_out cf (BytesHistory.abs_event check cf e) c) ->
+  r_va rk = trunc_va (c_pver cf) (r_ts rj) /\
+  r_va rk < r_ts rk /\
+  (c_pver cf = 0 \/ is_seconds_resolution (cd_fmt (r_def rk)) = true -> r_va rk / ns_per_s < r_ts rk / ns_per_s).
+Proof. exact BytesHistory.chain_on_the_wire. Qed.
+Print Assumptions C03_chain_on_the_wire.
+
+(* non-vacuity on the wire (props/NvWire.v): rounds 3, 4, 5 of the concrete history as bytes — three valid linked byte-level
+   events, channel 7 reports from the first and the third outcome bytes, not from the second *)
+Example C03_nv_wire :
+  BytesHistory.check_typed NvWire.w_check /\
+  Forall (BytesHistory.bvalid nv_h NvWire.w_check nv_cf) (NvWire.w_e3 :: [NvWire.w_e4] ++ [NvWire.w_e5]) /\
+  BytesHistory.blinked (NvWire.w_e3 :: [NvWire.w_e4] ++ [NvWire.w_e5]) /\
+  (exists rj, report_of nv_cf 3 (BytesHistory.dec_or_initial nv_cf (BytesHistory.bv_next NvWire.w_e3)) 7 rj) /\
+  (exists rk, report_of nv_cf 5 (BytesHistory.dec_or_initial nv_cf (BytesHistory.bv_next NvWire.w_e5)) 7 rk) /\
+  reportable nv_cf (BytesHistory.dec_or_initial nv_cf (BytesHistory.bv_next NvWire.w_e4)) 7 = false.
+Proof. exact NvWire.w_history. Qed.
 
 (* non-vacuity: in the concrete history channel 7 reports in round 3, not in round 4 (same second), again in 5 *)
 Definition nv_e (seq : Z) aos prev next := {| ev_seq := seq; ev_aos := aos; ev_prev := prev; ev_next := next |}.
